@@ -20,7 +20,7 @@ INSTR_EFFECT = {
     "BeginCapture": ("captures", +1), "EndCapture": ("captures", -1),
     "PushAutoEscape": ("autoescapes", +1), "PopAutoEscape": ("autoescapes", -1),
 }
-COUNTERS = ("frames", "captures", "autoescapes")
+COUNTERS = ("frames", "captures", "autoescapes", "spans")
 OPAQUE_NEUTRAL = (GEN + "::close_scopes_up_to_loop",)   # emits on the jump path only; verified by C05.B2
 
 
@@ -160,6 +160,8 @@ class Analysis:
                 return st
             if fld == "span_stack":
                 self.span_ops = getattr(self, "span_ops", 0) + 1
+                st = st.copy()
+                st.c["spans"] += 1
                 return st
         if name == "alloc::vec::Vec::pop" and c.args:
             fld = self.field_of_self(f, c.args[0])
@@ -179,6 +181,8 @@ class Analysis:
                 self.events.setdefault(f.path, []).append((c.bb, "pop " + str(exp), st))
                 return st
             if fld == "span_stack":
+                st = st.copy()
+                st.c["spans"] -= 1
                 return st
         # calls on the same generator
         tgt = c.resolved or c.path
